@@ -237,8 +237,11 @@ class Program(object):
         fns = mir.parse_dump(text)
         self.src_roots.append(src_root)
         self._scan_sources(src_root)
+        if not hasattr(self, 'fn_root'):
+            self.fn_root = {}
         for name, f in fns.items():
             self.fns[name] = f
+            self.fn_root[name] = src_root
             self._index(name, src_root)
 
     # ---- source scanning -----------------------------------------------------------------
@@ -312,7 +315,7 @@ class Program(object):
         res = ([], [])
         m = re.search(r'<impl at ([^:>]+):(\d+):(\d+): (\d+):(\d+)>', name)
         if m:
-            for root in self.src_roots:
+            for root in ([self.fn_root[name]] if name in getattr(self, 'fn_root', {}) else self.src_roots):
                 pth = os.path.join(root, m.group(1))
                 if os.path.exists(pth):
                     hdr = ' '.join(_span_text(pth, int(m.group(2)), int(m.group(3)), int(m.group(4)), int(m.group(5))).split())
@@ -343,14 +346,14 @@ class Program(object):
         m = re.search(r'<impl at ([^:>]+):(\d+):(\d+): (\d+):(\d+)>', base)
         texts = []
         if m:
-            for root in self.src_roots:
+            for root in ([self.fn_root[name]] if name in getattr(self, 'fn_root', {}) else self.src_roots):
                 pth = os.path.join(root, m.group(1))
                 if os.path.exists(pth):
                     ls = _lines(pth)
                     texts.append('\n'.join(ls[int(m.group(2)) - 1:]))
                     break
         else:
-            for root in self.src_roots:
+            for root in ([self.fn_root[name]] if name in getattr(self, 'fn_root', {}) else self.src_roots):
                 for dp, dn, fn in os.walk(root):
                     if 'target' in dp.split(os.sep):
                         continue
